@@ -19,6 +19,7 @@ from vt.engine import EnumPart, HypPart
 from vt.gen import bit as GB
 from vt.gen import dat as GD
 from vt.gen import dlis as GR
+from vt.gen import dlis_logical as GRL
 from vt.gen import las as GA
 from vt.gen import lis as GL
 
@@ -119,7 +120,9 @@ def lis_expected(case):
 
 @st.composite
 def valid_cases(draw):
-    fmt = draw(st.sampled_from(['RP66V1', 'LIS', 'LIS', 'LAS', 'BIT', 'DAT']))
+    fmt = draw(st.sampled_from(['RP66V1', 'RP66V1L', 'LIS', 'LIS', 'LAS', 'BIT', 'DAT']))
+    if fmt == 'RP66V1L':   # complete logical files (FILE-HEADER, ORIGIN, CHANNEL / FRAME sets, frame data)
+        return {'fmt': fmt, 'model': draw(GRL.log_pass_files(max_frame_types=2, max_channels=4, max_frames=8, max_sets=1))}
     if fmt == 'RP66V1':
         return {'fmt': fmt, 'model': draw(GR.physical_files(max_records=6, max_payload=800))}
     if fmt == 'LIS':
@@ -136,6 +139,9 @@ def valid_cases(draw):
 def render(case):
     """Returns (bytes, expected code | None, exclusion class | None, non-trivial)."""
     fmt = case['fmt']
+    if fmt == 'RP66V1L':
+        data, _m = GRL.build_logical(case['model'])
+        return data, 'RP66V1', None, True
     if fmt == 'RP66V1':
         data, _m = GR.build(case['model'])
         return data, 'RP66V1', None, len(case['model']['records']) >= 2
